@@ -75,8 +75,33 @@ func (v Undefined) String() string { panic("Attempted to coerce undefined value 
 func (v Null) String() string      { return "null" }
 func (v Bool) String() string      { return strconv.FormatBool(bool(v)) }
 func (v Int) String() string       { return strconv.FormatInt(int64(v), 10) }
-func (v Float) String() string     { return strconv.FormatFloat(float64(v), 'g', -1, 64) }
+func (v Float) String() string     { return formatFloat(float64(v)) }
 func (v String) String() string    { return string(v) }
+
+// formatFloat formats a float the way JavaScript's Number-to-string conversion
+// does (the shortest digits that round-trip, in decimal notation for
+// 1e-6 <= |f| < 1e21, otherwise as d.ddde+x), so that the HTML renderer prints
+// the same text as the generated javascript.
+func formatFloat(f float64) string {
+	switch {
+	case math.IsNaN(f):
+		return "NaN"
+	case math.IsInf(f, 1):
+		return "Infinity"
+	case math.IsInf(f, -1):
+		return "-Infinity"
+	case f == 0:
+		return "0"
+	}
+	if abs := math.Abs(f); abs >= 1e-6 && abs < 1e21 {
+		return strconv.FormatFloat(f, 'f', -1, 64)
+	}
+	// strconv writes at least two exponent digits ("1e-07"); javascript does not.
+	var s = strconv.FormatFloat(f, 'e', -1, 64)
+	var e = strings.IndexByte(s, 'e')
+	var exp = strings.TrimLeft(s[e+2:], "0")
+	return s[:e+2] + exp
+}
 
 func (v List) String() string {
 	var items = make([]string, len(v))
